@@ -36,6 +36,8 @@ type Scenario struct {
 	// Check is the oracle for one complete execution; outcome is a short
 	// description of what was observed (for the distinct-outcome count).
 	Check func(x *vrt.Exec, obs any) (fail *Fail, outcome string)
+	// RaceSig is the classifier signature of a data race found in this scenario (default "data-race").
+	RaceSig string
 	// ExpectDeadlock: a deadlock is handed to Check instead of being a violation.
 	ExpectDeadlock bool
 }
@@ -70,6 +72,7 @@ type shardResult struct {
 	Infra      string           `json:"infra,omitempty"`
 	Sample     []string         `json:"sample,omitempty"`
 	Extra      map[string]int64 `json:"extra,omitempty"`
+	Known      map[string]int   `json:"known,omitempty"`
 }
 
 // WorkerExtra, if set, lets a check add its own counters (summed over the shards of the
@@ -96,7 +99,13 @@ func worker(scenarios []Scenario, sh string, budget time.Duration) {
 	var i, k int
 	fmt.Sscanf(sh, "%d/%d", &i, &k)
 	deadline := time.Now().Add(budget)
-	res := shardResult{Race: vrt.RaceEnabled}
+	res := shardResult{Race: vrt.RaceEnabled, Known: map[string]int{}}
+	known := map[string]bool{}
+	for _, k := range strings.Split(os.Getenv("VERIF_KNOWN"), "\n") {
+		if k != "" {
+			known[k] = true
+		}
+	}
 	only := os.Getenv("VERIF_ONLY")
 	for idx, sc := range scenarios {
 		if idx%k != i && only == "" {
@@ -135,7 +144,11 @@ func worker(scenarios []Scenario, sh string, budget time.Duration) {
 		var vio *violation
 		judge := func(x *vrt.Exec) *Fail {
 			if x.Races > 0 {
-				return &Fail{"data-race", fmt.Sprintf("the race detector reported %d data race(s) in this schedule (details in the race log)", x.Races)}
+				sig := "data-race"
+				if sc.RaceSig != "" {
+					sig = sc.RaceSig
+				}
+				return &Fail{sig, fmt.Sprintf("the race detector reported %d data race(s) in this schedule (details in the race log)", x.Races)}
 			}
 			if x.Livelock {
 				return &Fail{"livelock", "execution exceeded the step budget (a retry loop that never terminates under this schedule)"}
@@ -162,6 +175,12 @@ func worker(scenarios []Scenario, sh string, budget time.Duration) {
 				if f == nil {
 					return true
 				}
+				if known[strings.ReplaceAll(f.Sig, " ", "_")] {
+					// a listed known finding: counted, and the exploration goes on, so that any
+					// other violation in the same scenario is still found
+					res.Known[strings.ReplaceAll(f.Sig, " ", "_")]++
+					return true
+				}
 				// replay twice with tracing; the same schedule must fail the same way
 				var traces [2][]string
 				for n := 0; n < 2; n++ {
@@ -170,7 +189,7 @@ func worker(scenarios []Scenario, sh string, budget time.Duration) {
 					g := judge(y)
 					if g == nil || g.Sig != f.Sig {
 						// a race is reported once per distinct stack pair: a replay of a racy schedule is silent
-						if f.Sig == "data-race" {
+						if strings.HasPrefix(f.Sig, "data-race") {
 							continue
 						}
 						res.Infra = fmt.Sprintf("scenario %s: replay of a failing schedule diverged (first %v, replay %v)", sc.Name, f, g)
@@ -254,7 +273,7 @@ func coordinate(r *ev.Run, scenarios []Scenario, finish func(r *ev.Run)) {
 			defer func() { <-sem }()
 			out := fmt.Sprintf("%s/%d.json", dir, ti)
 			cmd := exec.Command(t.bin, os.Args[1:]...)
-			cmd.Env = append(os.Environ(), fmt.Sprintf("VERIF_SHARD=%d/%d", t.shard, k), "VERIF_OUT="+out)
+			cmd.Env = append(os.Environ(), fmt.Sprintf("VERIF_SHARD=%d/%d", t.shard, k), "VERIF_OUT="+out, "VERIF_KNOWN="+strings.Join(r.KnownSigs(), "\n"))
 			if t.bin == raceBin {
 				cmd.Env = append(cmd.Env, fmt.Sprintf("GORACE=halt_on_error=0 log_path=%s/race-%d", dir, t.shard))
 			}
@@ -320,6 +339,9 @@ func coordinate(r *ev.Run, scenarios []Scenario, finish func(r *ev.Run)) {
 		}
 		for _, s := range res.Sample {
 			r.Sample(s)
+		}
+		for sig, n := range res.Known {
+			r.KnownHit(sig, n)
 		}
 	}
 	sort.Strings(per)
